@@ -9,8 +9,9 @@ git -C /repo worktree add -q --detach $WT HEAD || exit 2
 trap 'git -C /repo worktree remove --force '$WT' >/dev/null 2>&1' EXIT
 git -C $WT apply $V/seeded/$SID/patch.diff || { echo "SEEDTEST $SID patch does not apply"; exit 2; }
 mkdir -p /tmp/seed_evidence.$SID
+CH=$(grep "^+++ b/" $V/seeded/$SID/patch.diff | sed "s,^+++ b/,," | tr "\n" " ")
 for P in "$@"; do
-  (cd $V && VERIF_REPO=$WT VERIF_EVIDENCE_DIR=/tmp/seed_evidence.$SID ${VERIF_CHECK:-./check} $P quick > /tmp/seedtest_${SID}_$P.log 2>&1); RC=$?
+  (cd $V && VERIF_CHANGED_FILES="$CH" VERIF_REPO=$WT VERIF_EVIDENCE_DIR=/tmp/seed_evidence.$SID ${VERIF_CHECK:-./check} $P quick > /tmp/seedtest_${SID}_$P.log 2>&1); RC=$?
   echo "SEEDTEST $SID $P rc=$RC $(grep -c '^VIOLATION' /tmp/seedtest_${SID}_$P.log) violation-lines: $(grep '^FAILED-OBLIGATION' /tmp/seedtest_${SID}_$P.log | sed 's/.*key=//' | tr '\n' '|' | cut -c1-600)"
 done
 rm -rf /tmp/seed_evidence.$SID
